@@ -37,6 +37,9 @@ pub fn main(args: &[String]) -> i32 {
     let greys = ints(&tables["greys"]);
     let srgb = ints(&tables["srgb"]);
     let levels = ints(&tables["gray_levels"]);
+    // the palette entries themselves, placed by the library's own conversion of the xterm levels
+    let xcube: Vec<i128> = [0usize, 95, 135, 175, 215, 255].iter().map(|l| srgb[*l]).collect();
+    let xgreys: Vec<i128> = (0..24usize).map(|k| srgb[8 + 10 * k]).collect();
     let luma_den = ints(&tables["luma_den"])[0];
     if cube.len() != 6 || greys.len() != 24 || srgb.len() != 256 || levels.len() != 4 {
         eprintln!("unexpected table sizes");
@@ -49,6 +52,7 @@ pub fn main(args: &[String]) -> i32 {
     let mut out = Vec::new();
     let tol = 1e-6f64;
     let (mut checked, mut near, mut worst) = (0u64, 0u64, 0f64);
+    let mut model_diff = 0u64;
     let mut worst_at = json!(null);
     let mut violations: Vec<Value> = vec![];
     let mut near_list: Vec<Value> = vec![];
@@ -78,9 +82,22 @@ pub fn main(args: &[String]) -> i32 {
                 } else {
                     [greys[n - 232]; 3]
                 };
-                let di = d2(e);
-                if di != best {
-                    let excess = ((di as f64).sqrt() - (best as f64).sqrt()) / den as f64;
+                if d2(e) != best {
+                    // not the exact optimum with respect to the typed tables (f32 rounding)
+                    model_diff += 1;
+                }
+                // property: with respect to the palette entries placed by the library's own conversion
+                let xe = if n < 232 {
+                    let m = n - 16;
+                    [xcube[m / 36], xcube[(m / 6) % 6], xcube[m % 6]]
+                } else {
+                    [xgreys[n - 232]; 3]
+                };
+                let xchan = |x: i128| xcube.iter().map(|c| sq(x - c)).min().unwrap();
+                let xbest = (xchan(v[0]) + xchan(v[1]) + xchan(v[2])).min(xgreys.iter().map(|t| d2([*t, *t, *t])).min().unwrap());
+                let di = d2(xe);
+                if di != xbest {
+                    let excess = ((di as f64).sqrt() - (xbest as f64).sqrt()) / den as f64;
                     near += 1;
                     if near_list.len() < 64 {
                         near_list.push(json!({"depth": "256", "kind": "near-tie", "c": [r, g, b]}));
@@ -134,7 +151,7 @@ pub fn main(args: &[String]) -> i32 {
     }
     println!(
         "{}",
-        json!({"checked": checked, "stride": stride, "near_ties": near, "worst_excess": worst, "worst_at": worst_at,
+        json!({"checked": checked, "stride": stride, "near_ties": near, "differs_from_exact_model": model_diff, "worst_excess": worst, "worst_at": worst_at,
                "tolerance": tol, "violations": violations, "near_tie_colours": near_list})
     );
     0
